@@ -15,4 +15,4 @@ Extraction "model_dp.ml"
   DpTables.pevent_code DpTables.pstate_code DpTables.opstate_code DpTables.all_pevents
   Telegram.decode Telegram.fc_to_byte
   DpOracle.mkStep DpOracle.contract_ok DpOracle.conf_sane DpOracle.c03_monitor DpOracle.c04_monitor
-  DpOracle.c07_monitor DpOracle.c08_monitor DpOracle.c14_monitor DpOracle.c07_cycles_needed DpOracle.c07_bound.
+  DpOracle.c07_monitor DpOracle.c08_monitor DpOracle.c14_monitor DpOracle.c07_cycles_needed DpOracle.c07_bound DpOracle.c07_known_f15.
